@@ -1,7 +1,7 @@
 CONSTANTS
- GAME = "coll"
+ GAME = "mate7"
  Collide = FALSE
- PriorTables = TRUE
+ PriorTables = FALSE
  Nodes <- GNodes
  Root = "R"
  MoveIds <- GMoveIds
@@ -11,8 +11,8 @@ CONSTANTS
  Status <- GStatus
  Key <- GKey
  History = {}
- Workers = 2
- MaxIter = 2
+ Workers = 3
+ MaxIter = 3
  MinPar = 1
  Orders <- GOrdersAll
  K = 1000
@@ -20,12 +20,13 @@ CONSTANTS
  AssertLine = FALSE
  CapOrder <- GCap
  SlotOf <- GSlot
- TagCheck = TRUE
- TinyTable = FALSE
+ TagCheck = FALSE
+ TinyTable = TRUE
  StopAllowed = FALSE
 INIT MCInit
 NEXT Next
 CHECK_DEADLOCK FALSE
 INVARIANT LegalLine
-INVARIANT ReportBeforeEnd
+INVARIANT MateSound
+INVARIANT MateFound
 INVARIANT NoPanic
